@@ -257,6 +257,20 @@ theorem C20_export_all_ranges_exported (ops : List XOp) :
   simp only [exportRemaining] at this ⊢
   omega
 
+/-- **Export completeness, partial**: as long as no link entry is extended in place after it has been
+    exported (`late = false`; in the C++ this is `CopyLink::AddEntry`/`Many2ManyLink::AddEntry` hitting an entry
+    whose range is no longer the last registered one), every exported link record shows the extent its
+    entry has at the end, and refers to an existing entry. -/
+theorem C20_export_complete_partial (ops : List XOp) (h : (xrun {} ops).late = false) :
+    ∀ x, x ∈ (xrun {} ops).out →
+      (x.src, x.dst) = extentOf (xrun {} ops) x.link x.entry ∧ x.entry < ((xrun {} ops).ents x.link).length :=
+  fun x hx => ⟨(xrun_xinv ops {} xinv_init).cons h x hx, (xrun_xinv ops {} xinv_init).ent x hx⟩
+
+/-- every registered range refers to existing entries of its link (so no export record is made up) -/
+theorem C20_export_ranges_exist (ops : List XOp) :
+    ∀ r, r ∈ (xrun {} ops).brl → r.end_ ≤ ((xrun {} ops).ents r.link).length :=
+  (xrun_xinv ops {} xinv_init).rng
+
 /- Full-strength statement (DESIGN `C20_export_complete`), NOT true of the code as it exists:
 
      theorem C20_export_complete (ops : List XOp) :
